@@ -2,6 +2,7 @@ package main
 
 import (
 	"fmt"
+	"go/token"
 	"go/types"
 	"sort"
 	"strings"
@@ -256,7 +257,9 @@ func (e *lockEngine) flow(la *lockAnalysis, record bool) {
 			continue
 		}
 		out[b] = s
-		for _, succ := range b.Succs {
+		sOut := s
+		for si, succ := range b.Succs {
+			s := tryLockEdge(b, si, sOut)
 			if cur, ok := la.in[succ]; ok {
 				m := meetLocks(cur, s)
 				if !sameLocks(m, cur) {
@@ -302,6 +305,52 @@ func (e *lockEngine) flow(la *lockAnalysis, record bool) {
 	}
 }
 
+// tryLockEdge: when block b ends in `if m.TryLock()` (possibly negated), the state on the successor
+// taken when the attempt succeeded has the lock added.
+func tryLockEdge(b *ssa.BasicBlock, idx int, s lockSet) lockSet {
+	iff, ok := condOf(b)
+	if !ok {
+		return s
+	}
+	v := iff.Cond
+	neg := false
+	for {
+		if u, isU := v.(*ssa.UnOp); isU && u.Op == token.NOT {
+			neg = !neg
+			v = u.X
+			continue
+		}
+		break
+	}
+	call, isCall := v.(*ssa.Call)
+	if !isCall {
+		return s
+	}
+	f := staticCallee(call)
+	if f == nil || f.Signature.Recv() == nil {
+		return s
+	}
+	pkg, typ, m := recvNamed(call)
+	if pkg != "sync" || (typ != "RWMutex" && typ != "Mutex") || (m != "TryLock" && m != "TryRLock") {
+		return s
+	}
+	success := 0
+	if neg {
+		success = 1
+	}
+	if idx != success {
+		return s
+	}
+	out := s.clone()
+	path := accessPath(call.Common().Args[0])
+	if m == "TryLock" {
+		out[path] = 'W'
+	} else if out[path] != 'W' {
+		out[path] = 'R'
+	}
+	return out
+}
+
 // flowMay: forward may-lockset (union at joins): the locks that are held on at least one path.
 func (e *lockEngine) flowMay(la *lockAnalysis) map[*ssa.BasicBlock]lockSet {
 	fn := la.fn
@@ -318,7 +367,9 @@ func (e *lockEngine) flowMay(la *lockAnalysis) map[*ssa.BasicBlock]lockSet {
 		for _, i := range b.Instrs {
 			e.step(la, s, i, false)
 		}
-		for _, succ := range b.Succs {
+		sOut := s
+		for si, succ := range b.Succs {
+			s := tryLockEdge(b, si, sOut)
 			cur, ok := in[succ]
 			if !ok {
 				in[succ] = s.clone()
